@@ -13,6 +13,10 @@ func main() {
 		panic(err)
 	}
 	fn := p.Func(os.Args[1], os.Args[2], os.Args[3])
+	if len(os.Args) > 4 {
+		fn.WriteTo(os.Stdout)
+		return
+	}
 	facts := p.Facts(fn)
 	for _, b := range fn.Blocks {
 		fmt.Printf("block %d:", b.Index)
